@@ -20,6 +20,9 @@ struct HFrg { unsigned operator()(uint64_t k) const { return frg::hash<uint64_t>
 struct HMult { unsigned operator()(uint64_t k) const { return (unsigned)(k * 10240u); } static constexpr const char *name = "k*10240"; }; // multiple of 10*2^j, j<=10
 struct HHigh { unsigned operator()(uint64_t k) const { return 0x80000000u | (unsigned)(k * 2654435761u); } static constexpr const char *name = "highbit"; }; // (unsigned) -> negative as int
 
+struct HWide { uint64_t operator()(uint64_t k) const { return (k + 1) * 0x9E3779B97F4A7C15ull; } static constexpr const char *name = "64-bit"; }; // a hash wider than unsigned int: every path must reduce it the same way
+struct HSigned { int operator()(uint64_t k) const { return -(int)(k % 1000) - 1; } static constexpr const char *name = "negative-int"; };
+
 struct Ctx {
 	std::string type, trace;
 	bool bad = false;
@@ -225,6 +228,8 @@ int main(int argc, char **argv) {
 	run_family<HFrg, int>("int"); run_family<HFrg, Elem>("Elem");
 	run_family<HMult, Elem>("Elem");
 	run_family<HHigh, int>("int");
+	run_family<HWide, int>("int");
+	run_family<HSigned, int>("int");
 	if(want_mode("init-list")) { init_list_case<HIdentity>(); init_list_case<HConst>(); }
 	return finish();
 }
